@@ -71,10 +71,23 @@ def ChatWorld.init : ChatWorld := ⟨Registry.init, [], []⟩
 
 def ChatWorld.chat (w : ChatWorld) (cid : Nat) : Option PrivChat := w.chats.find? (·.id == cid)
 
-def ChatWorld.members (w : ChatWorld) (cid : Nat) : List (Nat × Nat) :=
+def ChatWorld.entries (w : ChatWorld) (cid : Nat) : List (Nat × Nat) :=
   match w.chat cid with
   | some ch => ch.members
   | none => []
+
+/-- A map entry is *connected* when the client table holds its id for that very connection
+    (`cc.Server.ClientMgr.Get(cc.ID) == cc`). -/
+def ChatWorld.isConnected (w : ChatWorld) (m : Nat × Nat) : Bool := (w.reg.get m.1).map (·.conn) == some m.2
+
+/-- `Members(id)` after fix 7d7f993: the map entries whose connection is still the holder of its id.
+    A user who disconnected is no longer a member, even though its entry stays in the map. -/
+def ChatWorld.members (w : ChatWorld) (cid : Nat) : List (Nat × Nat) := (w.entries cid).filter w.isConnected
+
+def ChatWorld.memberIds (w : ChatWorld) (cid : Nat) : List Nat := (w.members cid).map (·.1)
+
+/-- The ids the stored map of the chat is keyed by (connected or not). -/
+def ChatWorld.entryIds (w : ChatWorld) (cid : Nat) : List Nat := (w.entries cid).map (·.1)
 
 def ChatWorld.modifyChat (w : ChatWorld) (cid : Nat) (f : PrivChat → PrivChat) : ChatWorld :=
   { w with chats := w.chats.map fun ch => if ch.id = cid then { f ch with id := ch.id } else ch }
@@ -346,8 +359,8 @@ theorem ChatWorld.after_inv {w : ChatWorld} (h : w.Inv) (es : List ChatEv) : (w.
   | nil => exact h
   | cons e es ih => exact ih (ChatWorld.step_inv h e)
 
-theorem ChatWorld.Inv.members_sorted {w : ChatWorld} (h : w.Inv) (cid : Nat) : MemSorted (w.members cid) := by
-  unfold ChatWorld.members ChatWorld.chat
+theorem ChatWorld.Inv.entries_sorted {w : ChatWorld} (h : w.Inv) (cid : Nat) : MemSorted (w.entries cid) := by
+  unfold ChatWorld.entries ChatWorld.chat
   split
   · rename_i ch hf
     exact h.mem ch (List.mem_of_find?_eq_some hf)
@@ -393,34 +406,42 @@ theorem be32_inj {a b : Nat} (ha : a < 4294967296) (hb : b < 4294967296) (h : be
 
 -- ------------------------------------------------------------------ delivery to members
 
-/-- A member entry is *connected* when the client table holds its id for that very connection. -/
-def ChatWorld.isConnected (w : ChatWorld) (m : Nat × Nat) : Bool := (w.reg.get m.1).map (·.conn) == some m.2
-
-def ChatWorld.connectedMembers (w : ChatWorld) (cid : Nat) : List (Nat × Nat) :=
-  (w.members cid).filter w.isConnected
-
 /-- No user id is held by a newcomer while a chat still lists the connection that held it before. -/
 def ChatWorld.NoStaleReuse (w : ChatWorld) : Prop :=
   ∀ ch ∈ w.chats, ∀ m ∈ ch.members, ∀ c ∈ w.reg.clients, c.id = m.1 → c.conn = m.2
 
-theorem ChatWorld.mem_members {w : ChatWorld} {cid : Nat} {m : Nat × Nat} (h : m ∈ w.members cid) :
+theorem ChatWorld.mem_entries {w : ChatWorld} {cid : Nat} {m : Nat × Nat} (h : m ∈ w.entries cid) :
     ∃ ch ∈ w.chats, m ∈ ch.members := by
-  unfold ChatWorld.members ChatWorld.chat at h
+  unfold ChatWorld.entries ChatWorld.chat at h
   split at h
   · rename_i ch hf
     exact ⟨ch, List.mem_of_find?_eq_some hf, h⟩
   · cases h
 
-/-- Routing the transactions a handler addressed to the member ids of a chat through the client
-    table reaches exactly the connected members' connections, in member order. -/
-theorem ChatWorld.members_delivery (w : ChatWorld) (hns : w.NoStaleReuse) (cid : Nat)
-    (f : Nat × Nat → Out) (hf : ∀ m, (f m).to = m.1) :
-    ((w.members cid).map f).filterMap (deliver w.reg) = (w.connectedMembers cid).map (·.2) := by
+/-- Routing the transactions a handler addressed to the members of a chat through the client table
+    reaches exactly the members' connections, in member order — no hypothesis on id reuse: a member
+    is by definition the live holder of its id. -/
+theorem ChatWorld.members_delivery (w : ChatWorld) (cid : Nat) (f : Nat × Nat → Out) (hf : ∀ m, (f m).to = m.1) :
+    ((w.members cid).map f).filterMap (deliver w.reg) = (w.members cid).map (·.2) := by
   rw [List.filterMap_map]
-  unfold ChatWorld.connectedMembers
+  have h := filterMap_eq_filter_map (w.members cid) (deliver w.reg ∘ f) (fun _ => true) (·.2) (by
+    intro m hm
+    have hc : w.isConnected m = true := (List.mem_filter.mp hm).2
+    simp only [Function.comp, deliver, hf, if_true]
+    unfold ChatWorld.isConnected at hc
+    simpa using hc)
+  rw [h, List.filter_eq_self.mpr (fun _ _ => rfl)]
+
+/-- The behaviour before fix 7d7f993 (one transaction per *map entry*): routed through the table it
+    reaches the members' connections only under `NoStaleReuse`. -/
+theorem ChatWorld.entries_delivery (w : ChatWorld) (hns : w.NoStaleReuse) (cid : Nat)
+    (f : Nat × Nat → Out) (hf : ∀ m, (f m).to = m.1) :
+    ((w.entries cid).map f).filterMap (deliver w.reg) = (w.members cid).map (·.2) := by
+  rw [List.filterMap_map]
+  unfold ChatWorld.members
   apply filterMap_eq_filter_map
   intro m hm
-  obtain ⟨ch, hch, hmc⟩ := ChatWorld.mem_members hm
+  obtain ⟨ch, hch, hmc⟩ := ChatWorld.mem_entries hm
   simp only [Function.comp, deliver, hf, ChatWorld.isConnected]
   have key : ∀ (o : Option Client), (∀ c, o = some c → c.conn = m.2) →
       o.map (·.conn) = if (o.map (·.conn) == some m.2) = true then some m.2 else none := by
@@ -433,12 +454,26 @@ theorem ChatWorld.members_delivery (w : ChatWorld) (hns : w.NoStaleReuse) (cid :
   have hc := Registry.get_some hg
   exact hns ch hch m hmc c hc.1 hc.2
 
-/-- Each connected member is a distinct connection. -/
-theorem ChatWorld.connectedMembers_nodup (w : ChatWorld) (hw : w.Inv) (cid : Nat) :
-    ((w.connectedMembers cid).map (·.2)).Nodup := by
+theorem ChatWorld.members_sorted (w : ChatWorld) (hw : w.Inv) (cid : Nat) : MemSorted (w.members cid) :=
+  List.Pairwise.filter _ (hw.entries_sorted cid)
+
+theorem ChatWorld.memberIds_subset (w : ChatWorld) (cid : Nat) {i : Nat} (h : i ∈ w.memberIds cid) : i ∈ w.entryIds cid := by
+  obtain ⟨m, hm, rfl⟩ := List.mem_map.mp h
+  exact List.mem_map.mpr ⟨m, (List.mem_filter.mp hm).1, rfl⟩
+
+/-- A member's connection is what the table routes its id to. -/
+theorem ChatWorld.deliver_member (w : ChatWorld) (cid : Nat) {m : Nat × Nat} (hm : m ∈ w.members cid) (o : Out)
+    (ho : o.to = m.1) : deliver w.reg o = some m.2 := by
+  have hc : w.isConnected m = true := (List.mem_filter.mp hm).2
+  unfold ChatWorld.isConnected at hc
+  simp only [deliver, ho]
+  simpa using hc
+
+/-- Each member is a distinct connection. -/
+theorem ChatWorld.members_nodup_conns (w : ChatWorld) (hw : w.Inv) (cid : Nat) :
+    ((w.members cid).map (·.2)).Nodup := by
   rw [List.Nodup, List.pairwise_map]
-  have hs : (w.connectedMembers cid).Pairwise (fun a b => a.1 < b.1) :=
-    List.Pairwise.filter _ (hw.members_sorted cid)
+  have hs : (w.members cid).Pairwise (fun a b => a.1 < b.1) := w.members_sorted hw cid
   refine hs.imp_of_mem ?_
   intro a b ha hb hlt heq
   have hca : w.isConnected a = true := (List.mem_filter.mp ha).2
@@ -473,9 +508,9 @@ theorem ChatWorld.chat_id {w : ChatWorld} {cid : Nat} {ch : PrivChat} (h : w.cha
   unfold ChatWorld.chat at h
   simpa using List.find?_some h
 
-theorem ChatWorld.members_modifyChat_other (w : ChatWorld) (cid cid' : Nat) (f : PrivChat → PrivChat)
-    (hne : cid' ≠ cid) : (w.modifyChat cid f).members cid' = w.members cid' := by
-  unfold ChatWorld.members
+theorem ChatWorld.entries_modifyChat_other (w : ChatWorld) (cid cid' : Nat) (f : PrivChat → PrivChat)
+    (hne : cid' ≠ cid) : (w.modifyChat cid f).entries cid' = w.entries cid' := by
+  unfold ChatWorld.entries
   rw [ChatWorld.chat_modifyChat w cid cid' f]
   cases h : w.chat cid' with
   | none => rfl
@@ -484,9 +519,9 @@ theorem ChatWorld.members_modifyChat_other (w : ChatWorld) (cid cid' : Nat) (f :
     simp only [Option.map_some]
     rw [if_neg (by rw [this]; exact hne)]
 
-theorem ChatWorld.members_modifyChat_same (w : ChatWorld) (cid : Nat) (f : PrivChat → PrivChat) :
-    (w.modifyChat cid f).members cid = match w.chat cid with | some ch => (f ch).members | none => [] := by
-  unfold ChatWorld.members
+theorem ChatWorld.entries_modifyChat_same (w : ChatWorld) (cid : Nat) (f : PrivChat → PrivChat) :
+    (w.modifyChat cid f).entries cid = match w.chat cid with | some ch => (f ch).members | none => [] := by
+  unfold ChatWorld.entries
   rw [ChatWorld.chat_modifyChat w cid cid f]
   cases h : w.chat cid with
   | none => rfl
@@ -498,6 +533,18 @@ theorem ChatWorld.members_modifyChat_same (w : ChatWorld) (cid : Nat) (f : PrivC
 end Mobius
 
 namespace Mobius
+
+theorem ChatWorld.members_modifyChat_mem (w : ChatWorld) (cid : Nat) (f : PrivChat → PrivChat) {m : Nat × Nat}
+    (hm : m ∈ (w.modifyChat cid f).members cid) :
+    w.isConnected m = true ∧ ∃ ch, w.chat cid = some ch ∧ m ∈ (f ch).members := by
+  unfold ChatWorld.members at hm
+  have h := List.mem_filter.mp hm
+  refine ⟨h.2, ?_⟩
+  have h1 := h.1
+  rw [ChatWorld.entries_modifyChat_same w cid f] at h1
+  split at h1
+  · rename_i ch hch; exact ⟨ch, hch, h1⟩
+  · cases h1
 
 -- ------------------------------------------------------------------ who is addressed by chat traffic
 
@@ -522,7 +569,6 @@ def ChatEv.joins (e : ChatEv) (i cid : Nat) : Bool :=
   | .inviteNew a _ _ c => a == i && c == cid
   | _ => false
 
-def ChatWorld.memberIds (w : ChatWorld) (cid : Nat) : List Nat := (w.members cid).map (·.1)
 
 theorem chatTraffic_mkTran {ty to : Nat} {fs : List Field} {cid : Nat} (h : (mkTran ty to fs).chatTraffic cid = true) :
     (ty = 106 ∨ ty = 117 ∨ ty = 118 ∨ ty = 119) ∧ ∃ f ∈ fs, f.ty = 114 ∧ f.data = be32 cid := by
@@ -617,11 +663,10 @@ theorem ChatWorld.traffic_to_members (w : ChatWorld) (e : ChatEv) (hwf : e.WF) (
       rcases hf with rfl | rfl <;> simp at h1
       have := inj c' rfl h2
       subst this
-      rw [ChatWorld.members_modifyChat_same w c' (fun ch => { ch with members := memDelete c.id ch.members })] at hm
-      unfold ChatWorld.memberIds ChatWorld.members
-      split at hm
-      · exact List.mem_map.mpr ⟨m, (mem_memDelete.mp hm).1, rfl⟩
-      · cases hm
+      obtain ⟨hc, ch, hch, hmc⟩ := ChatWorld.members_modifyChat_mem w c' _ hm
+      refine List.mem_map.mpr ⟨m, List.mem_filter.mpr ⟨?_, hc⟩, rfl⟩
+      unfold ChatWorld.entries; rw [hch]
+      exact (mem_memDelete.mp hmc).1
   | decline a r c' =>
     simp only [ChatWorld.step] at ho
     split at ho
@@ -645,11 +690,10 @@ theorem ChatWorld.traffic_to_members (w : ChatWorld) (e : ChatEv) (hwf : e.WF) (
       rcases hf with rfl | rfl <;> simp at h1
       have := inj c' rfl h2
       subst this
-      rw [ChatWorld.members_modifyChat_same w c' (fun ch => { ch with subject := s })] at hm
-      unfold ChatWorld.memberIds ChatWorld.members
-      split at hm
-      · exact List.mem_map.mpr ⟨m, hm, rfl⟩
-      · cases hm
+      obtain ⟨hc, ch, hch, hmc⟩ := ChatWorld.members_modifyChat_mem w c' _ hm
+      refine List.mem_map.mpr ⟨m, List.mem_filter.mpr ⟨?_, hc⟩, rfl⟩
+      unfold ChatWorld.entries; rw [hch]
+      exact hmc
   | send a r c' op msg =>
     simp only [ChatWorld.step] at ho
     split at ho
@@ -678,14 +722,14 @@ end Mobius
 
 namespace Mobius
 
-theorem ChatWorld.members_congr {w w' : ChatWorld} (h : w'.chats = w.chats) (cid : Nat) : w'.members cid = w.members cid := by
-  unfold ChatWorld.members ChatWorld.chat; rw [h]
+theorem ChatWorld.entries_congr {w w' : ChatWorld} (h : w'.chats = w.chats) (cid : Nat) : w'.entries cid = w.entries cid := by
+  unfold ChatWorld.entries ChatWorld.chat; rw [h]
 
 /-- Somebody who is not in the member map of `cid` stays out of it through every event that is not
     a join (or the creation of that very chat) by that id. -/
-theorem ChatWorld.nonmember_preserved (w : ChatWorld) (e : ChatEv) (i cid : Nat) (hnot : i ∉ w.memberIds cid)
-    (hj : e.joins i cid = false) : i ∉ (w.step e).1.memberIds cid := by
-  unfold ChatWorld.memberIds at *
+theorem ChatWorld.nonmember_preserved (w : ChatWorld) (e : ChatEv) (i cid : Nat) (hnot : i ∉ w.entryIds cid)
+    (hj : e.joins i cid = false) : i ∉ (w.step e).1.entryIds cid := by
+  unfold ChatWorld.entryIds at *
   cases e with
   | login l an ac nm ic =>
     simp only [ChatWorld.step, stepLogin]
@@ -704,8 +748,8 @@ theorem ChatWorld.nonmember_preserved (w : ChatWorld) (e : ChatEv) (i cid : Nat)
     · rename_i c hg
       have hcid := (Registry.get_some hg).2
       simp only [stepInviteNew]
-      have hnew : i ∉ (ChatWorld.members { w with chats := ⟨c', [], [(c.id, c.conn)]⟩ :: w.chats.filter (·.id != c') } cid).map (·.1) := by
-        unfold ChatWorld.members ChatWorld.chat
+      have hnew : i ∉ (ChatWorld.entries { w with chats := ⟨c', [], [(c.id, c.conn)]⟩ :: w.chats.filter (·.id != c') } cid).map (·.1) := by
+        unfold ChatWorld.entries ChatWorld.chat
         simp only [List.find?_cons]
         by_cases hc : c' = cid
         · subst hc
@@ -734,8 +778,8 @@ theorem ChatWorld.nonmember_preserved (w : ChatWorld) (e : ChatEv) (i cid : Nat)
       simp only [stepJoin]
       by_cases hc : c' = cid
       · subst hc
-        rw [ChatWorld.members_modifyChat_same w c' (fun ch => { ch with members := memInsert (c.id, c.conn) ch.members })]
-        unfold ChatWorld.members at hnot
+        rw [ChatWorld.entries_modifyChat_same w c' (fun ch => { ch with members := memInsert (c.id, c.conn) ch.members })]
+        unfold ChatWorld.entries at hnot
         split
         · rename_i ch hch
           rw [hch] at hnot
@@ -746,7 +790,7 @@ theorem ChatWorld.nonmember_preserved (w : ChatWorld) (e : ChatEv) (i cid : Nat)
             exact hj hcid.symm
           · exact hnot (List.mem_map.mpr ⟨m, hm', rfl⟩)
         · simp
-      · rw [ChatWorld.members_modifyChat_other w c' cid _ (fun h => hc h.symm)]
+      · rw [ChatWorld.entries_modifyChat_other w c' cid _ (fun h => hc h.symm)]
         exact hnot
   | leave a r c' =>
     simp only [ChatWorld.step]
@@ -756,8 +800,8 @@ theorem ChatWorld.nonmember_preserved (w : ChatWorld) (e : ChatEv) (i cid : Nat)
       simp only [stepLeave]
       by_cases hc : c' = cid
       · subst hc
-        rw [ChatWorld.members_modifyChat_same w c' (fun ch => { ch with members := memDelete c.id ch.members })]
-        unfold ChatWorld.members at hnot
+        rw [ChatWorld.entries_modifyChat_same w c' (fun ch => { ch with members := memDelete c.id ch.members })]
+        unfold ChatWorld.entries at hnot
         split
         · rename_i ch hch
           rw [hch] at hnot
@@ -765,7 +809,7 @@ theorem ChatWorld.nonmember_preserved (w : ChatWorld) (e : ChatEv) (i cid : Nat)
           obtain ⟨m, hm, rfl⟩ := List.mem_map.mp hi
           exact hnot (List.mem_map.mpr ⟨m, (mem_memDelete.mp hm).1, rfl⟩)
         · simp
-      · rw [ChatWorld.members_modifyChat_other w c' cid _ (fun h => hc h.symm)]
+      · rw [ChatWorld.entries_modifyChat_other w c' cid _ (fun h => hc h.symm)]
         exact hnot
   | decline a r c' =>
     simp only [ChatWorld.step]
@@ -777,14 +821,14 @@ theorem ChatWorld.nonmember_preserved (w : ChatWorld) (e : ChatEv) (i cid : Nat)
     · simp only [stepSetSubject]
       by_cases hc : c' = cid
       · subst hc
-        rw [ChatWorld.members_modifyChat_same w c' (fun ch => { ch with subject := s })]
-        unfold ChatWorld.members at hnot
+        rw [ChatWorld.entries_modifyChat_same w c' (fun ch => { ch with subject := s })]
+        unfold ChatWorld.entries at hnot
         split
         · rename_i ch hch
           rw [hch] at hnot
           exact hnot
         · simp
-      · rw [ChatWorld.members_modifyChat_other w c' cid _ (fun h => hc h.symm)]
+      · rw [ChatWorld.entries_modifyChat_other w c' cid _ (fun h => hc h.symm)]
         exact hnot
   | send a r c' o m =>
     simp only [ChatWorld.step]
@@ -798,23 +842,23 @@ theorem ChatWorld.nonmember_preserved (w : ChatWorld) (e : ChatEv) (i cid : Nat)
 /-- After `leave` by a connected user the member map of that chat no longer lists its id, and the
     leave notices themselves are not addressed to it. -/
 theorem ChatWorld.leave_removes (w : ChatWorld) (i r cid : Nat) (c : Client) (hg : w.reg.get i = some c) :
-    i ∉ (w.step (.leave i r cid)).1.memberIds cid ∧ ∀ o ∈ (w.step (.leave i r cid)).2, o.to ≠ i := by
+    i ∉ (w.step (.leave i r cid)).1.entryIds cid ∧ ∀ o ∈ (w.step (.leave i r cid)).2, o.to ≠ i := by
   have hcid := (Registry.get_some hg).2
   simp only [ChatWorld.step, hg, stepLeave]
-  have hmem : ∀ m ∈ (w.modifyChat cid fun ch => { ch with members := memDelete c.id ch.members }).members cid, m.1 ≠ i := by
+  have hmem : ∀ m ∈ (w.modifyChat cid fun ch => { ch with members := memDelete c.id ch.members }).entries cid, m.1 ≠ i := by
     intro m hm
-    rw [ChatWorld.members_modifyChat_same w cid (fun ch => { ch with members := memDelete c.id ch.members })] at hm
+    rw [ChatWorld.entries_modifyChat_same w cid (fun ch => { ch with members := memDelete c.id ch.members })] at hm
     split at hm
     · rw [← hcid]; exact (mem_memDelete.mp hm).2
     · cases hm
   constructor
-  · unfold ChatWorld.memberIds
+  · unfold ChatWorld.entryIds
     intro hi
     obtain ⟨m, hm, hmi⟩ := List.mem_map.mp hi
     exact hmem m hm hmi
   · intro o ho
     obtain ⟨m, hm, rfl⟩ := List.mem_map.mp ho
-    exact hmem m hm
+    exact hmem m (List.mem_filter.mp hm).1
 
 end Mobius
 
@@ -1011,5 +1055,312 @@ theorem isReply_map_mkTran {α : Type} (l : List α) (f : α → Nat × Nat × L
   intro o ho
   obtain ⟨x, _, rfl⟩ := List.mem_map.mp ho
   rfl
+
+end Mobius
+
+namespace Mobius
+
+-- ------------------------------------------------------------------ entries remember which connection joined
+
+/-- Every map entry was made by a connection that exists(ed) (serial below the counter of serials),
+    and a connection never changes its id: whoever is connected under that serial holds that id. -/
+def ChatWorld.EntOK (w : ChatWorld) : Prop :=
+  ∀ ch ∈ w.chats, ∀ m ∈ ch.members, m.2 < w.reg.serial ∧ ∀ c ∈ w.reg.clients, c.conn = m.2 → c.id = m.1
+
+theorem ChatWorld.EntOK.init : ChatWorld.init.EntOK := by intro ch h; cases h
+
+theorem ChatWorld.EntOK.modifyChat {w : ChatWorld} (he : w.EntOK) (hw : w.Inv) (cid : Nat) (f : PrivChat → PrivChat)
+    (hm : ∀ ch ∈ w.chats, ∀ m ∈ (f ch).members, m ∈ ch.members ∨ ∃ c ∈ w.reg.clients, m = (c.id, c.conn)) :
+    (w.modifyChat cid f).EntOK := by
+  intro ch' hch' m hmm
+  obtain ⟨ch, hch, rfl⟩ := List.mem_map.mp hch'
+  have old : ∀ m ∈ ch.members, m.2 < w.reg.serial ∧ ∀ c ∈ w.reg.clients, c.conn = m.2 → c.id = m.1 := he ch hch
+  have live : ∀ c ∈ w.reg.clients, (c.id, c.conn).2 < w.reg.serial ∧ ∀ c' ∈ w.reg.clients, c'.conn = (c.id, c.conn).2 → c'.id = (c.id, c.conn).1 := by
+    intro c hc
+    refine ⟨hw.reg.conns c hc, ?_⟩
+    intro c' hc' heq
+    rw [eq_of_nodup_map hw.reg.connsNodup hc' hc heq]
+  split at hmm
+  · rcases hm ch hch m hmm with h | ⟨c, hc, rfl⟩
+    · exact old m h
+    · exact live c hc
+  · exact old m hmm
+
+theorem ChatWorld.step_entOK {w : ChatWorld} (hw : w.Inv) (he : w.EntOK) (e : ChatEv) : (w.step e).1.EntOK := by
+  cases e with
+  | login l an ac nm ic =>
+    simp only [ChatWorld.step, stepLogin]
+    split
+    · exact he
+    · rename_i r' c ha
+      obtain ⟨_, _, _, _, hconn, _, _, hser, hmem⟩ := Registry.add_spec hw.reg ha
+      intro ch hch m hm
+      have ho := he ch hch m hm
+      refine ⟨by show m.2 < r'.serial; omega, ?_⟩
+      intro x hx hxc
+      rcases (hmem x).mp hx with rfl | hx0
+      · omega
+      · exact ho.2 x hx0 hxc
+  | disconnect a =>
+    simp only [ChatWorld.step]
+    split
+    · exact he
+    · intro ch hch m hm
+      have ho := he ch hch m hm
+      exact ⟨ho.1, fun x hx hxc => ho.2 x (List.mem_filter.mp hx).1 hxc⟩
+  | inviteNew a r t c' =>
+    simp only [ChatWorld.step]
+    split
+    · exact he
+    · rename_i c hg
+      have hcm := (Registry.get_some hg).1
+      simp only [stepInviteNew]
+      have hnew : ChatWorld.EntOK { w with chats := ⟨c', [], [(c.id, c.conn)]⟩ :: w.chats.filter (·.id != c') } := by
+        intro ch hch m hm
+        rcases List.mem_cons.mp hch with rfl | hch
+        · simp only [List.mem_singleton] at hm; subst hm
+          refine ⟨hw.reg.conns c hcm, ?_⟩
+          intro x hx hxc
+          rw [eq_of_nodup_map hw.reg.connsNodup hx hcm hxc]
+        · exact he ch (List.mem_filter.mp hch).1 m hm
+      split
+      · exact he
+      · split <;> exact hnew
+  | invite a r t c' =>
+    simp only [ChatWorld.step]
+    split
+    · exact he
+    · simp only [stepInvite]; split <;> exact he
+  | join a r c' =>
+    simp only [ChatWorld.step]
+    split
+    · exact he
+    · rename_i c hg
+      have hcm := (Registry.get_some hg).1
+      refine he.modifyChat hw c' _ ?_
+      intro ch _ m hm
+      rcases mem_memInsert.mp hm with rfl | ⟨h, _⟩
+      · exact Or.inr ⟨c, hcm, rfl⟩
+      · exact Or.inl h
+  | leave a r c' =>
+    simp only [ChatWorld.step]
+    split
+    · exact he
+    · exact he.modifyChat hw c' _ (fun ch _ m hm => Or.inl (mem_memDelete.mp hm).1)
+  | decline a r c' =>
+    simp only [ChatWorld.step]
+    split <;> exact he
+  | setSubject a r c' s =>
+    simp only [ChatWorld.step]
+    split
+    · exact he
+    · exact he.modifyChat hw c' _ (fun ch _ m hm => Or.inl hm)
+  | send a r c' o m =>
+    simp only [ChatWorld.step]
+    split
+    · exact he
+    · simp only [stepSend]
+      split
+      · exact he
+      · split <;> exact he
+
+theorem ChatWorld.after_entOK {w : ChatWorld} (hw : w.Inv) (he : w.EntOK) (es : List ChatEv) : (w.after es).EntOK := by
+  induction es generalizing w with
+  | nil => exact he
+  | cons e es ih => exact ih (ChatWorld.step_inv hw e) (ChatWorld.step_entOK hw he e)
+
+theorem ChatWorld.EntOK.entries {w : ChatWorld} (he : w.EntOK) {cid : Nat} {m : Nat × Nat} (hm : m ∈ w.entries cid) :
+    m.2 < w.reg.serial ∧ ∀ c ∈ w.reg.clients, c.conn = m.2 → c.id = m.1 := by
+  obtain ⟨ch, hch, hmc⟩ := ChatWorld.mem_entries hm
+  exact he ch hch m hmc
+
+-- ------------------------------------------------------------------ a connection that has not joined
+
+/-- Connection `k` (which holds id `i` whenever it is connected) has no entry in the map of chat `cid`. -/
+structure ChatWorld.Outside (w : ChatWorld) (k i cid : Nat) : Prop where
+  noEntry : ∀ m ∈ w.entries cid, m.2 ≠ k
+  holds : ∀ c ∈ w.reg.clients, c.conn = k → c.id = i
+  known : k < w.reg.serial
+
+/-- What an event can add to the map of a chat: only the entry of the connection that joins (or creates) it. -/
+theorem ChatWorld.entries_step (w : ChatWorld) (e : ChatEv) (cid : Nat) {m : Nat × Nat}
+    (hm : m ∈ (w.step e).1.entries cid) :
+    m ∈ w.entries cid ∨ ∃ a c, w.reg.get a = some c ∧ m = (c.id, c.conn) ∧ e.joins a cid = true := by
+  cases e with
+  | login l an ac nm ic =>
+    simp only [ChatWorld.step, stepLogin] at hm
+    split at hm <;> exact Or.inl hm
+  | disconnect a =>
+    simp only [ChatWorld.step] at hm
+    split at hm <;> exact Or.inl hm
+  | inviteNew a r t c' =>
+    simp only [ChatWorld.step] at hm
+    split at hm
+    · exact Or.inl hm
+    · rename_i c hg
+      simp only [stepInviteNew] at hm
+      have hnew : m ∈ ChatWorld.entries { w with chats := ⟨c', [], [(c.id, c.conn)]⟩ :: w.chats.filter (·.id != c') } cid →
+          m ∈ w.entries cid ∨ ∃ a0 c, w.reg.get a0 = some c ∧ m = (c.id, c.conn) ∧ (ChatEv.inviteNew a r t c').joins a0 cid = true := by
+        intro h
+        unfold ChatWorld.entries ChatWorld.chat at h
+        simp only [List.find?_cons] at h
+        by_cases hc : c' = cid
+        · subst hc
+          simp only [beq_self_eq_true, List.mem_singleton] at h
+          exact Or.inr ⟨a, c, hg, h, by simp [ChatEv.joins]⟩
+        · have hb : (c' == cid) = false := by simpa using hc
+          simp only [hb] at h
+          rw [find?_filter_ne _ _ _ (fun hh => hc hh.symm)] at h
+          exact Or.inl h
+      split at hm
+      · exact Or.inl hm
+      · split at hm <;> exact hnew hm
+  | invite a r t c' =>
+    simp only [ChatWorld.step] at hm
+    split at hm
+    · exact Or.inl hm
+    · simp only [stepInvite] at hm; split at hm <;> exact Or.inl hm
+  | join a r c' =>
+    simp only [ChatWorld.step] at hm
+    split at hm
+    · exact Or.inl hm
+    · rename_i c hg
+      simp only [stepJoin] at hm
+      by_cases hc : c' = cid
+      · subst hc
+        rw [ChatWorld.entries_modifyChat_same w c' (fun ch => { ch with members := memInsert (c.id, c.conn) ch.members })] at hm
+        split at hm
+        · rename_i ch hch
+          rcases mem_memInsert.mp hm with rfl | ⟨h, _⟩
+          · exact Or.inr ⟨a, c, hg, rfl, by simp [ChatEv.joins]⟩
+          · left; unfold ChatWorld.entries; rw [hch]; exact h
+        · cases hm
+      · rw [ChatWorld.entries_modifyChat_other w c' cid _ (fun h => hc h.symm)] at hm
+        exact Or.inl hm
+  | leave a r c' =>
+    simp only [ChatWorld.step] at hm
+    split at hm
+    · exact Or.inl hm
+    · rename_i c hg
+      simp only [stepLeave] at hm
+      by_cases hc : c' = cid
+      · subst hc
+        rw [ChatWorld.entries_modifyChat_same w c' (fun ch => { ch with members := memDelete c.id ch.members })] at hm
+        split at hm
+        · rename_i ch hch
+          left; unfold ChatWorld.entries; rw [hch]; exact (mem_memDelete.mp hm).1
+        · cases hm
+      · rw [ChatWorld.entries_modifyChat_other w c' cid _ (fun h => hc h.symm)] at hm
+        exact Or.inl hm
+  | decline a r c' =>
+    simp only [ChatWorld.step] at hm
+    split at hm <;> exact Or.inl hm
+  | setSubject a r c' s =>
+    simp only [ChatWorld.step] at hm
+    split at hm
+    · exact Or.inl hm
+    · simp only [stepSetSubject] at hm
+      by_cases hc : c' = cid
+      · subst hc
+        rw [ChatWorld.entries_modifyChat_same w c' (fun ch => { ch with subject := s })] at hm
+        split at hm
+        · rename_i ch hch
+          left; unfold ChatWorld.entries; rw [hch]; exact hm
+        · cases hm
+      · rw [ChatWorld.entries_modifyChat_other w c' cid _ (fun h => hc h.symm)] at hm
+        exact Or.inl hm
+  | send a r c' o msg =>
+    simp only [ChatWorld.step] at hm
+    split at hm
+    · exact Or.inl hm
+    · simp only [stepSend] at hm
+      split at hm
+      · exact Or.inl hm
+      · split at hm <;> exact Or.inl hm
+
+/-- What an event can do to the client table: connected clients stay what they were, or are new
+    connections with the next serial. -/
+theorem ChatWorld.clients_step (w : ChatWorld) (hw : w.Inv) (e : ChatEv) :
+    w.reg.serial ≤ (w.step e).1.reg.serial ∧
+    ∀ x ∈ (w.step e).1.reg.clients, x ∈ w.reg.clients ∨ x.conn = w.reg.serial := by
+  have same : w.reg.serial ≤ w.reg.serial ∧ ∀ x ∈ w.reg.clients, x ∈ w.reg.clients ∨ x.conn = w.reg.serial :=
+    ⟨Nat.le_refl _, fun x hx => Or.inl hx⟩
+  cases e with
+  | login l an ac nm ic =>
+    simp only [ChatWorld.step, stepLogin]
+    split
+    · exact same
+    · rename_i r' c ha
+      obtain ⟨_, _, _, _, hconn, _, _, hser, hmem⟩ := Registry.add_spec hw.reg ha
+      refine ⟨by show w.reg.serial ≤ r'.serial; omega, ?_⟩
+      intro x hx
+      rcases (hmem x).mp hx with rfl | hx0
+      · exact Or.inr hconn
+      · exact Or.inl hx0
+  | disconnect a =>
+    simp only [ChatWorld.step]
+    split
+    · exact same
+    · exact ⟨Nat.le_refl _, fun x hx => Or.inl (List.mem_filter.mp hx).1⟩
+  | inviteNew a r t c' =>
+    simp only [ChatWorld.step]
+    split
+    · exact same
+    · simp only [stepInviteNew]
+      split
+      · exact same
+      · split <;> exact same
+  | invite a r t c' =>
+    simp only [ChatWorld.step]
+    split
+    · exact same
+    · simp only [stepInvite]; split <;> exact same
+  | join a r c' =>
+    simp only [ChatWorld.step]
+    split <;> exact same
+  | leave a r c' =>
+    simp only [ChatWorld.step]
+    split <;> exact same
+  | decline a r c' =>
+    simp only [ChatWorld.step]
+    split <;> exact same
+  | setSubject a r c' s =>
+    simp only [ChatWorld.step]
+    split <;> exact same
+  | send a r c' o msg =>
+    simp only [ChatWorld.step]
+    split
+    · exact same
+    · simp only [stepSend]
+      split
+      · exact same
+      · split <;> exact same
+
+theorem ChatWorld.Outside.step {w : ChatWorld} (hw : w.Inv) {k i cid : Nat} (h : w.Outside k i cid) (e : ChatEv)
+    (hj : e.joins i cid = false) : (w.step e).1.Outside k i cid := by
+  obtain ⟨hser, hcl⟩ := w.clients_step hw e
+  refine ⟨?_, ?_, by have := h.known; omega⟩
+  · intro m hm
+    rcases w.entries_step e cid hm with hold | ⟨a, c, hg, rfl, hja⟩
+    · exact h.noEntry m hold
+    · intro hk
+      have hc := Registry.get_some hg
+      have : c.id = i := h.holds c hc.1 hk
+      rw [← hc.2, this, hj] at hja
+      cases hja
+  · intro x hx hxk
+    rcases hcl x hx with hx0 | hnew
+    · exact h.holds x hx0 hxk
+    · have := h.known; omega
+
+/-- Chat traffic of `cid` is never routed to a connection that has no entry in that chat's map. -/
+theorem ChatWorld.Outside.not_reached {w : ChatWorld} {k i cid : Nat} (h : w.Outside k i cid) (e : ChatEv) (hwf : e.WF)
+    (hcid : cid < 4294967296) (o : Out) (ho : o ∈ (w.step e).2) (ht : o.chatTraffic cid = true) :
+    deliver w.reg o ≠ some k := by
+  have hin := w.traffic_to_members e hwf cid hcid o ho ht
+  obtain ⟨m, hm, hmo⟩ := List.mem_map.mp hin
+  rw [w.deliver_member cid hm o hmo.symm]
+  intro hk
+  exact h.noEntry m (List.mem_filter.mp hm).1 (Option.some.inj hk)
 
 end Mobius
